@@ -554,3 +554,51 @@ def r_regen(ctx):
 def qualname_of(fn):
     c = getattr(fn, "_cls", None)
     return (c.name + "." if c else "") + fn.name
+
+
+# ---------------------------------------------------------------------------------------------------
+# R-PARAM: the class parameters the conditions are written with are the numbers the user gave
+# ---------------------------------------------------------------------------------------------------
+def r_params(ctx):
+    """Every constructor of a class family stores each parameter it is given unchanged -- in particular it does not replace a value that happens
+    to be falsy (`self.D = D or np.inf` turns the legitimate D = 0 into 'no bound')."""
+    from .. import flow
+    repo = ctx.repo
+    base = repo.cls("Function")
+    n = 0
+    for c in repo.subclasses(base):
+        init = c.methods.get("__init__")
+        if init is None:
+            continue
+        a0 = init.args
+        ps = [x.arg for x in a0.posonlyargs + a0.args + a0.kwonlyargs][1:]
+        for s0 in flow.stmts_of(init, ast.Assign):
+            for t in s0.targets:
+                d = dotted(t)
+                if not (d and d.startswith("self.") and d.count(".") == 1):
+                    continue
+                names = {x.id for x in ast.walk(s0.value) if isinstance(x, ast.Name)}
+                src_params = [p0 for p0 in ps if p0 in names and p0 not in ("is_leaf", "decomposition_dict", "reuse_gradient", "name")]
+                if not src_params:
+                    continue
+                n += 1
+                v = s0.value
+                why = None
+                if isinstance(v, ast.BoolOp) and isinstance(v.op, ast.Or) and dotted(v.values[0]) in src_params:
+                    why = "`%s` replaces a falsy %s (0 is a legitimate value) by `%s`" % (src(v), dotted(v.values[0]), src(v.values[-1]))
+                elif isinstance(v, ast.IfExp) and (dotted(v.test) in src_params or (isinstance(v.test, ast.UnaryOp) and dotted(v.test.operand) in src_params)):
+                    why = "`%s` decides on the truth value of the parameter (0 is a legitimate value)" % src(v)
+                else:
+                    for tt, br, _ in flow.conditions_guarding(s0):
+                        t2 = tt.operand if isinstance(tt, ast.UnaryOp) and isinstance(tt.op, ast.Not) else tt
+                        if dotted(t2) in src_params:
+                            why = "`%s` under `%s`: the stored value depends on the truth value of the parameter" % (norm_stmt0(s0), src(tt))
+                ctx.ob("R-PARAM", "%s.__init__::self.%s" % (c.name, d.split(".", 1)[1]), why is None,
+                       "the parameter is stored as given" if why is None else why + ": the conditions are generated for another class than the one declared",
+                       "%s:%d" % (c.module.rel, s0.lineno))
+    ctx.count("class parameters stored", n)
+    return n
+
+
+def norm_stmt0(s0):
+    return " ".join(src(s0).split())[:60]
